@@ -15,7 +15,7 @@ EXCLUDED_PARAMS = {"&'static Op", "&'static str"}
 EXCLUDED_FOR = {"kotlin": {"Option<&'x [u8]>", "Option<SB<'x>>", "Option<SSl<'x>>"}}
 # struct parameter forms whose definition lifetimes hold slice fields: Dart / JS must hand the edge arrays of every return lifetime
 # that may borrow through that slot to the struct conversion (append arrays), which attaches the slice arena to them
-SLICE_SLOTS = {"SSl<'x>": {"a"}, "Option<SSl<'x>>": {"a"}, "SSl2<'x,'y>": {"a", "b"}}
+SLICE_SLOTS = {"SSl<'x>": {"a"}, "Option<SSl<'x>>": {"a"}, "SSl2<'x,'y>": {"a", "b"}, "Nest2<'x,'y>": {"b"}}
 # returned slices/strings are copied into host values by some backends (Kotlin arrays/Strings, nanobind std::string): the
 # returned value then borrows nothing, so no edge is required; these return forms are judged in the in-process half only
 # JS panics on any Result whose error type is a primitive (converter.rs `e.id().unwrap()`): reported by C15, kept out of this module
